@@ -263,6 +263,9 @@ func loadFreshTargets(rep *Report) ([]genMsg, error) {
 	if res.errText != "" {
 		return nil, fmt.Errorf("regenerating the checked-in schemas failed: %s", res.errText)
 	}
+	if em, err := rawDescriptors(res.prog.roots); err == nil {
+		lastFreshGrounds = append(lastFreshGrounds, embeddedDescriptorGrounds("regen", em, all, gen)...)
+	}
 	same, differ := 0, 0
 	for _, pk := range res.prog.roots {
 		orig := checked.pkg(pk.PkgPath[strings.LastIndex(pk.PkgPath, "/")+1:])
@@ -306,6 +309,9 @@ func loadFreshTargets(rep *Report) ([]genMsg, error) {
 	if cres.errText != "" {
 		return nil, fmt.Errorf("generating the corpus failed: %s", cres.errText)
 	}
+	if em, err := rawDescriptors(cres.prog.roots); err == nil {
+		lastFreshGrounds = append(lastFreshGrounds, embeddedDescriptorGrounds("corpus", em, call, cgen)...)
+	}
 	n := 0
 	for _, pk := range cres.prog.roots {
 		for _, ms := range messageSchemas(pk) {
@@ -325,6 +331,8 @@ func loadFreshTargets(rep *Report) ([]genMsg, error) {
 	}
 	return out, nil
 }
+
+var lastFreshGrounds []Ground
 
 var reflMethods = []string{"Range", "Has", "Clear", "Get", "Set", "Mutable", "NewField", "WhichOneof", "GetUnknown", "SetUnknown", "IsValid", "New", "Interface", "Type", "Descriptor", "ProtoMethods"}
 
